@@ -58,6 +58,9 @@ func run(c *core.Ctx, idx int) {
 	if r.Chance(0.3) {
 		o.Coord = func(r *gen.R) float64 { return r.Range(-180, 180) } // 17-digit values
 	}
+	if r.Chance(0.02) {
+		o.MaxVerts = 1500 // long coordinate lists
+	}
 	k := []int{gen.KPoint, gen.KLineString, gen.KMultiLineString, gen.KPolygon, gen.KMultiPolygon}[r.Intn(5)]
 	g := gen.RandGeomKind(r, o, k, 0)
 	name := fmt.Sprintf("%T", g)[5:]
